@@ -177,26 +177,102 @@ def classify_c15(c):
           (im["events"][0]["t"] + (":" + im["events"][0]["e"] if im["events"][0]["t"] == "err" else "")))
     return "%s->%s" % (band, out)
 
-def load_corpus(name):
-    cases = []
-    for f in sorted(glob.glob(os.path.join(C.ROOT, "corpus", "httpresp", name + "_*.json"))):
-        try:
-            d = json.load(open(f))
-            cases += d if isinstance(d, list) else d.get("cases", [])
-        except Exception:
-            pass
-    return cases
+def corpus_path(name):
+    return os.path.join(C.ROOT, "corpus", "httpresp", name + "_inputs.jsonl")
 
-def shrink_c15(case):
-    """Greedy shrinking of a failing random case by re-evaluating candidate reductions in coqc
-    (drop headers one at a time, shorten the body) while the verdict stays the same.  The
-    implementation's observation cannot be recomputed here, so only input parts that do not change
-    what the implementation saw are dropped: none.  Shrinking therefore re-runs the harness."""
-    return case
+def run_lines(cmd, timeout=1500):
+    rc, out = C.sh(cmd, timeout=timeout)
+    if rc != 0: return None, out
+    return [json.loads(l) for l in out.splitlines() if l.startswith("{")], out
+
+def shrink(prop, case, to_input, candidates, rerun, evaluate, budget=40):
+    """Greedy delta-debugging on the INPUT of a failing case: every candidate reduction is re-run on the
+    real code by the harness (rerun) and re-judged inside coqc (evaluate -> verdict); a candidate is kept
+    when its verdict is still 2.  Returns the smallest failing case found (with the implementation's
+    observation for it)."""
+    best = case
+    for _ in range(budget):
+        cands = candidates(to_input(best))
+        if not cands: break
+        tmp = os.path.join(C.ALT or C.CACHE, "shrink_%s.jsonl" % prop)
+        open(tmp, "w").write("".join(json.dumps(c) + "\n" for c in cands))
+        got = rerun(tmp)
+        if not got or len(got) != len(cands): break
+        verdicts = evaluate(got)
+        if verdicts is None: break
+        hit = [g for g, v in zip(got, verdicts) if v == 2]
+        if not hit: break
+        best = min(hit, key=lambda c: len(json.dumps(to_input(c))))
+    return best
+
+# ---- C15 shrinking
+def c15_input(c):
+    return {"name": c.get("name"), "api": c["api"], "exp": c["exp"], "result": c["result"]}
+
+def c15_candidates(inp):
+    r = inp["result"]; out = []
+    if r["t"] != "ok": return out
+    hs = r["headers"]
+    for i in range(len(hs)):
+        out.append(dict(inp, result=dict(r, headers=hs[:i] + hs[i + 1:])))
+    b = r["body"]
+    if b:
+        out.append(dict(inp, result=dict(r, body="")))
+        half = (len(b) // 4) * 2
+        if half and half != len(b):
+            out.append(dict(inp, result=dict(r, body=b[:half])))
+            out.append(dict(inp, result=dict(r, body=b[half:])))
+    for i, (n, v) in enumerate(hs):
+        for k, s in ((0, n), (1, v)):
+            if len(s) > 4:
+                h2 = list(hs); e = list(h2[i]); e[k] = s[:(len(s) // 4) * 2]; h2[i] = e
+                out.append(dict(inp, result=dict(r, headers=h2)))
+    return [c for c in out if json.dumps(c, sort_keys=True) != json.dumps(inp, sort_keys=True)]
+
+def c15_evaluate(cases):
+    text, order = c15_text(cases, None)
+    res = C.run_case_files("C15shrink", [text])
+    if not res or not res[0][0]: return None
+    flat = [v for l in res[0][1] for v in l]
+    idx = {id(c): v for c, v in zip(order, flat)}
+    return [idx.get(id(c)) for c in cases] if len(flat) == len(cases) else None
+
+# ---- C16 shrinking
+def c16_input(d):
+    return {"name": d.get("name"), "case": d["case"]}
+
+def c16_candidates(inp):
+    c = inp["case"]; out = []
+    def put(**kw): out.append({"name": inp.get("name"), "case": dict(c, **kw)})
+    for key in ("client_stack", "req_stack"):
+        s = c[key]
+        for i in range(len(s)):
+            put(**{key: s[:i] + s[i + 1:]})
+            m = s[i]
+            if m["t"] == "redirect" and m["attempts"] > 0:
+                put(**{key: s[:i] + [dict(m, attempts=m["attempts"] // 2)] + s[i + 1:]})
+                put(**{key: s[:i] + [dict(m, attempts=m["attempts"] - 1)] + s[i + 1:]})
+            if m["t"] == "pass" and m["add"] is not None: put(**{key: s[:i] + [dict(m, add=None)] + s[i + 1:]})
+            if m["t"] == "retry" and m["n"] > 1: put(**{key: s[:i] + [dict(m, n=m["n"] - 1)] + s[i + 1:]})
+            if m["t"] == "issue":
+                for side in ("pre", "post"):
+                    for j in range(len(m[side])):
+                        put(**{key: s[:i] + [dict(m, **{side: m[side][:j] + m[side][j + 1:]})] + s[i + 1:]})
+    g = c["graph"]
+    for i in range(len(g)): put(graph=g[:i] + g[i + 1:])
+    if c.get("has_body"): put(has_body=False, request=dict(c["request"], body=""))
+    dh = c.get("desc_headers", [])
+    for i in range(len(dh)): put(desc_headers=dh[:i] + dh[i + 1:])
+    return out
+
+def c16_evaluate(cases):
+    res = C.run_case_files("C16shrink", [c16_text(cases)])
+    if not res or not res[0][0] or len(res[0][1]) != 1 or len(res[0][1][0]) != len(cases): return None
+    return res[0][1][0]
 
 def check_C15(run, replay=None):
     tier = run.tier
-    count = 3000 if tier == "quick" else 60000
+    count = 0 if replay else (3000 if tier == "quick" else 60000)
     C.proof_stage(run, "C15")
     known_list, _ = C.known_findings("C15")
     profiles = [False] if tier == "quick" else [False, True]
@@ -206,21 +282,27 @@ def check_C15(run, replay=None):
         run.oblige("harness-build httpresp_c15 (%s) from the repository working tree" % ("release" if rel else "dev"), ok, log[-1500:])
         if not ok:
             continue
-        rc, out = C.sh("%s %d %d %s" % (bins["httpresp_c15"], run.seed + (7 if rel else 0), count, "sweep" if not rel else "nosweep"), timeout=1500)
-        if rc != 0:
+        got, out = run_lines("%s %d %d %s %s" % (bins["httpresp_c15"], run.seed + (7 if rel else 0), count, "sweep" if not (rel or replay) else "nosweep",
+                                                   corpus_path("c15") if not replay else "/dev/null"))
+        if got is None:
             run.oblige("harness-run httpresp_c15", False, out[-1500:]); continue
-        for l in out.splitlines():
-            if not l.startswith("{"): continue
-            d = json.loads(l)
+        for d in got:
             if d["k"] == "table": table = d["known_status"]
             elif d["k"] == "sweep_fixed": fixed = d
             else:
                 d["profile"] = "release" if rel else "dev"; cases.append(d)
-    corpus = load_corpus("c15")
     if replay:
+        # a replay file carries inputs AND the observation that failed; the inputs are also run again on
+        # the current tree so that both "it failed then" and "what it does now" are judged
         rp = json.load(open(replay))
-        cases = rp.get("cases", []); fixed = rp.get("sweep_fixed", fixed)
-        corpus = []
+        old_cases = rp.get("cases", []); fixed = rp.get("sweep_fixed", fixed)
+        tmp = os.path.join(C.ALT or C.CACHE, "replay_C15.jsonl")
+        open(tmp, "w").write("".join(json.dumps(c15_input(c)) + "\n" for c in old_cases if c["k"] == "case"))
+        again = []
+        if ok:
+            again, _ = run_lines("%s 1 0 nosweep %s" % (bins["httpresp_c15"], tmp)); again = again or []
+        cases = old_cases + [d for d in again if d["k"] == "case"]
+    corpus = [c for c in cases if c.get("corpus")]
     # the status table of the model against the one http-types accepts today
     model_table = None
     res = C.run_case_files("C15tbl", [C15_HEAD + "Eval vm_compute in known_status_table."])
@@ -228,7 +310,7 @@ def check_C15(run, replay=None):
     if table is not None:
         run.oblige("known_status_table of the model = the codes http_types::StatusCode::try_from accepts (%d codes)" % len(table),
                    model_table == table, "model %s\nlibrary %s" % (model_table, table))
-    allc = corpus + cases
+    allc = cases
     shards, texts = make_shards_c15(allc, fixed)
     res = C.run_case_files("C15", texts)
     dist = collections.Counter(); verd = collections.Counter()
@@ -257,6 +339,11 @@ def check_C15(run, replay=None):
            "answered (hex byte strings), impl = events the app received / panicked; sweep cases use sweep_fixed's headers and body")
     if bad_ok:
         bad_ok.sort(key=lambda c: len(json.dumps(c)))
+        gen = [c for c in bad_ok if c["k"] == "case"]
+        if gen and not replay and ok:
+            small = shrink("C15", gen[0], c15_input, c15_candidates,
+                           lambda f: [d for d in (run_lines("%s 1 0 nosweep %s" % (bins["httpresp_c15"], f))[0] or []) if d["k"] == "case"], c15_evaluate)
+            small["shrunk_from"] = len(json.dumps(c15_input(gen[0]))); bad_ok.insert(0, small)
         run.violation("C15_ok", {"property": "C15", "what": "an HTTP result did not yield exactly one well-classified outcome",
                                  "cases": bad_ok[:20], "sweep_fixed": fixed, "how_to_replay": how})
     elif bad_model or gen_bugs:
@@ -348,21 +435,25 @@ def classify_c16(d):
 
 def check_C16(run, replay=None):
     tier = run.tier
-    count = 1200 if tier == "quick" else 40000
+    count = 0 if replay else (1200 if tier == "quick" else 40000)
     C.proof_stage(run, "C16")
     ok, log, bins = C.harness_build(["httpresp_c16"])
     run.oblige("harness-build httpresp_c16 (dev) from the repository working tree", ok, log[-1500:])
     cases = []
     if ok:
-        rc, out = C.sh("%s %d %d" % (bins["httpresp_c16"], run.seed, count), timeout=1500)
-        if rc != 0:
+        got, out = run_lines("%s %d %d %s" % (bins["httpresp_c16"], run.seed, count, corpus_path("c16") if not replay else "/dev/null"))
+        if got is None:
             run.oblige("harness-run httpresp_c16", False, out[-1500:])
         else:
-            cases = [json.loads(l) for l in out.splitlines() if l.startswith("{")]
-    corpus = load_corpus("c16")
+            cases = got
     if replay:
-        cases = json.load(open(replay)).get("cases", []); corpus = []
-    allc = corpus + cases
+        old_cases = json.load(open(replay)).get("cases", [])
+        tmp = os.path.join(C.ALT or C.CACHE, "replay_C16.jsonl")
+        open(tmp, "w").write("".join(json.dumps(c16_input(d)) + "\n" for d in old_cases))
+        again = (run_lines("%s 1 0 %s" % (bins["httpresp_c16"], tmp))[0] or []) if ok else []
+        cases = old_cases + again
+    corpus = [d for d in cases if d.get("corpus")]
+    allc = cases
     nsh = 16 if len(allc) > 200 else 4
     shards = [s for s in (allc[i::nsh] for i in range(nsh)) if s]
     res = C.run_case_files("C16", [c16_text(s) for s in shards])
@@ -388,6 +479,10 @@ def check_C16(run, replay=None):
            "impl.log = enter/exit marks and the requests the shell received, in order; impl.events = what the app got")
     if bad_ok:
         bad_ok.sort(key=lambda d: len(json.dumps(d["case"])))
+        if not replay and ok:
+            small = shrink("C16", bad_ok[0], c16_input, c16_candidates,
+                           lambda f: run_lines("%s 1 0 %s" % (bins["httpresp_c16"], f))[0], c16_evaluate)
+            small["shrunk_from"] = len(json.dumps(bad_ok[0]["case"])); bad_ok.insert(0, small)
         run.violation("C16_ok", {"property": "C16", "what": "middleware order / redirect behaviour differs from the reference semantics",
                                  "cases": bad_ok[:10], "how_to_replay": how})
     elif bad_model or gen_bugs:
